@@ -530,7 +530,10 @@ pub fn injection_script(order_hex: &str, p_hex: &str, rng: &mut Rng, which: usiz
     let n = hexb(order_hex);
     let p = hexb(p_hex);
     let all: Vec<Vec<u8>> = vec![vec![0u8; 32], n.clone(), be_add_small(&n, 1), be_add_small(&n, 2), be_add_small(&p, -2), be_add_small(&p, -1), p.clone(), vec![0xffu8; 32],
-        be_add_small(&n, (rng.below(1 << 20) + 3) as i64)];
+        be_add_small(&n, (rng.below(1 << 20) + 3) as i64),
+        // candidates on which a limb-wise / lexicographic comparison disagrees with the numeric one: >= order but with a small low limb
+        { let mut v = vec![0xffu8; 32]; for b in v[24..32].iter_mut() { *b = 0; } v[31] = 5; v },
+        { let mut v = n.clone(); for b in v[8..32].iter_mut() { *b = 0; } v[7] = v[7].wrapping_add(1); v }];
     let mut s: Vec<[u8; 32]> = vec![b32(&all[which % all.len()]), b32(&all[(which / 3 + 1) % all.len()])];
     let mut good = rng.bytes(32); good[0] &= 0x7f;      // finally a good value so that the operation ends
     s.push(b32(&good));
@@ -648,7 +651,7 @@ fn asn1_dec_event(t: &mut Tracer, sess: &str, d: &[u8], der: &[u8], fault: &str)
 }
 
 /// search an ephemeral scalar whose C1 = [k]G has `zeros` leading zero bytes in x (or y), or a first byte >= 0x80
-fn search_k(rng: &mut Rng, want_y: bool, zeros: usize, limit: usize) -> Option<[u8; 32]> {
+pub fn search_k(rng: &mut Rng, want_y: bool, zeros: usize, limit: usize) -> Option<[u8; 32]> {
     for _ in 0..limit {
         let mut k = rng.bytes(32); k[0] &= 0x7f;
         let p = g_mul(&be_u256(&k)).to_byte_be(false);
@@ -723,6 +726,13 @@ pub fn drive_codec(t: &mut Tracer, tier: &str, seed: u64) {
     for z in 1..=(if thorough { 2 } else { 1 }) {
         shapes.push((format!("x-lead0x{}", z), search_k(&mut rng, false, z, 400000)));
         shapes.push((format!("y-lead0x{}", z), search_k(&mut rng, true, z, 400000)));
+    }
+    // pre-computed scalars (found once with `gmverif findk`): [k]G has two leading zero bytes in x resp. y; re-checked here before use
+    for (name, khex, want_y) in [("x-lead0x2", "5e00711dcecea98cdf20e3820067019b0b56766bab3f7c379adb20d426ca8d0f", false), ("y-lead0x2", "7b3b4f0229243dd52ea81dc91439d4611b5ee9fce711bd355a0bf02924bffee8", true)] {
+        let k = hexb(khex);
+        let p = g_mul(&be_u256(&k)).to_byte_be(false);
+        let c = if want_y { &p[33..65] } else { &p[1..33] };
+        if c[0] == 0 && c[1] == 0 && !shapes.iter().any(|(n, v)| n == name && v.is_some()) { shapes.push((format!("{}", name), Some(b32(&k)))); }
     }
     for (shape, k) in shapes {
         let reps = if k.is_none() { if thorough { 40 } else { 6 } } else { 1 };
